@@ -82,8 +82,15 @@ def power(x1: PolyLike, x2: PolyLike, **kwargs: Any) -> ndpoly:
         out = numpoly.ndpoly.from_attributes(
             [(0,)], [numpy.ones(x1.shape, dtype=dtype)], x1.names[:1]
         )
-        for _ in range(x2.item()):
-            out = numpoly.multiply(out, x1, **kwargs)
+        # square-and-multiply: the number of products grows with the logarithm
+        # of the exponent, not with the exponent
+        count, base = x2.item(), x1
+        while count:
+            if count & 1:
+                out = numpoly.multiply(out, base, **kwargs)
+            count >>= 1
+            if count:
+                base = numpoly.multiply(base, base, **kwargs)
 
     else:
         # One scalar power per distinct exponent value, selected element-wise
